@@ -26,12 +26,7 @@ func (o Op) hex(k string) string {
 	return string(b)
 }
 func (o Op) boolean(k string) bool { v, _ := o[k].(bool); return v }
-func (o Op) num(k string) int {
-	if v, ok := o[k].(float64); ok {
-		return int(v)
-	}
-	return 0
-}
+func (o Op) num(k string) int { return int(num64(o[k])) }
 func (o Op) arr(k string) []interface{} { v, _ := o[k].([]interface{}); return v }
 
 func unhex(s string) string {
@@ -56,6 +51,7 @@ func main() {
 	out := bufio.NewWriterSize(os.Stdout, 1<<20)
 	defer out.Flush()
 	dec := json.NewDecoder(in)
+	dec.UseNumber()
 	for {
 		var op Op
 		if err := dec.Decode(&op); err != nil {
